@@ -743,6 +743,12 @@ func main() {
 				e.statement(g.query(qr.Fork(), hz), hdr, dsID)
 			}
 		}
+		// fixed corpus: one minimal statement per confirmed class (seed independent)
+		for _, cs := range corpus {
+			for _, hdr := range cs.hdrs {
+				e.statement(cs.build(), hdr, dsID)
+			}
+		}
 		e.cacheProbe(qr.Fork(), dsID)
 		for i := 0; i < nq; i++ {
 			hz := ""
